@@ -188,6 +188,16 @@ def include_docs(ctx, res):
     s.db.deep.z = cc.IntField()
     s.db.deep.include = cc.IncludeField(startdir=tmp)
     s.db.deep.tls.include = cc.IncludeField(startdir=tmp)
+    # the same inside configurations declared by a config type (directly, below a section, and a config type inside a config type)
+    inner = cc.Schema()
+    inner.include = cc.IncludeField(startdir=tmp)
+    inner.port = cc.IntField()
+    outer = cc.Schema()
+    outer.include = cc.IncludeField(startdir=tmp)
+    outer.inner = cc.make_type(inner, "IncInner")
+    outer.plain.include = cc.IncludeField(startdir=tmp)
+    s.typed = cc.make_type(outer, "IncOuter")
+    s.db.typed = cc.make_type(inner, "IncInner2")
     with open(os.path.join(tmp, "bad.json"), "w") as fh:
         fh.write("{not json")
     docs = [({"include": 5}, "include"), ({"include": "missing.json"}, "include"), ({"include": "sub"}, "include"), ({"include": ["f.txt"]}, "include"),
@@ -197,7 +207,10 @@ def include_docs(ctx, res):
             ({"db": {"deep": {"include": "missing.json"}}}, "db.deep.include"), ({"db": {"deep": {"include": 9}}}, "db.deep.include"),
             ({"db": {"deep": {"include": "bad.json"}}}, "db.deep.include"),
             ({"db": {"deep": {"tls": {"include": "missing.json"}}}}, "db.deep.tls.include"), ({"db": {"deep": {"tls": {"include": ["x"]}}}}, "db.deep.tls.include"),
-            ({"db": {"deep": {"tls": "abc"}}}, "db.deep.tls")]
+            ({"db": {"deep": {"tls": "abc"}}}, "db.deep.tls"),
+            ({"typed": {"include": "missing.json"}}, "typed.include"), ({"typed": {"include": 5}}, "typed.include"), ({"typed": {"include": "bad.json"}}, "typed.include"),
+            ({"typed": {"inner": {"include": "missing.json"}}}, "typed.inner.include"), ({"typed": {"plain": {"include": "missing.json"}}}, "typed.plain.include"),
+            ({"db": {"typed": {"include": "missing.json"}}}, "db.typed.include"), ({"db": {"typed": {"include": ["x"]}}}, "db.typed.include")]
     for tree, want in docs:
         for fmt in ["json", "yaml", "bson", "xml", "pickle"]:
             doc = cc.ConfigFormat.get(fmt).dumps(None, tree)
@@ -453,6 +466,64 @@ def merged_and_standalone_stream(ctx, res):
                     else:
                         want, got = "fw.groups[1].rules[2].limits[cpu]", outcome(lambda: target.limits.__setitem__("cpu", "lots"))
                     judge({"stream": "merged-standalone", "what": "merged-item", "how": how, "other_owner": other_owner, "reject": reject, "config_type": typed}, got, want, "merged-item")
+    # (a') a list re-assigned from something derived from itself (l + [...], l.copy(), l[:], list(l), reversed) and then changed:
+    # a later rejection inside an item names the position the item has NOW
+    for typed in (False, True):
+        for derive in ("plus", "copy", "slice", "plain-list", "times-one", "iadd-then-assign"):
+            for route in ("attr", "dotted"):
+                it = cc.Schema()
+                it.n = cc.IntField(default=0)
+                it.opts.ttl = cc.IntField(default=5)
+                T = cc.make_type(it, "RItem") if typed else it
+                s = cc.Schema()
+                s.a.items = cc.ListField(T, default=lambda: [])
+                c = s()
+                c.load_tree({"a": {"items": [{"n": 10}, {"n": 11}, {"n": 12}]}})
+                cur = c.a.items
+                try:
+                    new = {"plus": lambda: cur + [{"n": 13}], "copy": lambda: cur.copy(), "slice": lambda: cur[:], "plain-list": lambda: list(cur),
+                           "times-one": lambda: cur * 1, "iadd-then-assign": lambda: cur.__iadd__([{"n": 13}])}[derive]()
+                    if route == "attr":
+                        c.a.items = new
+                    else:
+                        c["a.items"] = new
+                    del c.a.items[0]
+                except Exception:  # noqa
+                    res.case(None, kind="merged-standalone:reassign-raised")
+                    continue
+                for index in range(len(c.a.items)):
+                    target = c.a.items[index]
+                    want, got = "a.items[%d].n" % index, outcome(lambda: setattr(target, "n", "x"))
+                    judge({"stream": "merged-standalone", "what": "reassigned-from-itself", "derive": derive, "route": route, "index": index, "config_type": typed},
+                          got, want, "reassigned-from-itself")
+                    want, got = "a.items[%d].opts.ttl" % index, outcome(lambda: setattr(target.opts, "ttl", "x"))
+                    judge({"stream": "merged-standalone", "what": "reassigned-from-itself", "derive": derive, "route": route, "index": index, "nested": True, "config_type": typed},
+                          got, want, "reassigned-from-itself")
+    # (a'') entries of typed dicts whose value (or key) already fails while its on-disk form is decoded (hex / base64 text, a secret's
+    # map, a digest's map), by tree and by document, at the root, nested and inside a list item: the error names the entry's key
+    for where in ("root", "nested", "list-item"):
+        for kind, mk, bad in (("hex-bytes", lambda: cc.BytesField(encoding="hex"), "zz"), ("hex-bytes-number", lambda: cc.BytesField(encoding="hex"), 5),
+                              ("base64-bytes", lambda: cc.BytesField(), "!!!"), ("secure", lambda: cc.SecureField(method="xor"), {"method": "xor"}),
+                              ("challenge", lambda: cc.ChallengeField("md5"), {"salt": "A"}), ("int", lambda: cc.IntField(), "x")):
+            for route in ("load_tree", "json"):
+                leaf = cc.Schema()
+                leaf.blobs = cc.DictField(cc.StringField(), mk(), default=dict)
+                s = cc.Schema()
+                if where == "root":
+                    s.blobs = cc.DictField(cc.StringField(), mk(), default=dict)
+                    tree, want = {"blobs": {"ok": None, "k": bad}}, "blobs[k]"
+                elif where == "nested":
+                    s.a.b = leaf
+                    tree, want = {"a": {"b": {"blobs": {"k": bad}}}}, "a.b.blobs[k]"
+                else:
+                    s.a.items = cc.ListField(leaf, default=lambda: [])
+                    tree, want = {"a": {"items": [{"blobs": {}}, {"blobs": {"k": bad}}]}}, "a.items[1].blobs[k]"
+                c = s()
+                if route == "load_tree":
+                    got = outcome(lambda: c.load_tree(tree))
+                else:
+                    got = outcome(lambda: c.loads(json.dumps(tree).encode(), format="json"))
+                judge({"stream": "merged-standalone", "what": "dict-entry-decode", "where": where, "value_field": kind, "route": route}, got, want, "dict-entry-decode")
     # (b)
     for depth in (1, 2, 3, 4):
         names = ["net", "http", "tls", "opts"][:depth]
